@@ -38,6 +38,8 @@ class CallMixin:
             return VFunc("specfn", name)
         if self.spec_mode and name in SPEC_BUILTINS:
             return VFunc("builtin", name)
+        if name in self.reg.ufuns:
+            return VFunc("ufun", name)
         return self.lookup_module(self.cur_mod, name)
 
     def lookup_module(self, mod: source.ModuleInfo, name: str):
@@ -81,7 +83,9 @@ class CallMixin:
         """value of a module-level constant assignment (literals, simple arithmetic, known tables)"""
         key = (mod.name, name)
         if key in self.reg_const_overrides():
-            return self.reg_const_overrides()[key](self)
+            if key not in self._const_cache:
+                self._const_cache[key] = self.reg_const_overrides()[key](self)
+            return self._const_cache[key]
         try:
             v = ast.literal_eval(node)
         except Exception:
@@ -181,6 +185,10 @@ class CallMixin:
     def class_attr(self, clsname: str, recv, attr: str, st: State):
         mod, cls = self.class_of_record(clsname)
         if mod is None:
+            c = self.reg.contracts.get(("<builtin>", f"{clsname}.{attr}"))
+            if c is not None:
+                yield VFunc("cmethod", attr, obj=recv, data=c), st
+                return
             raise Unsupported(f"record {clsname} has no Python class for attribute {attr}")
         q = f"{cls}.{attr}"
         if q in mod.funcs:
@@ -193,6 +201,10 @@ class CallMixin:
             return
         if (cls, attr) in mod.class_consts:
             yield self.class_const(mod, cls, attr), st
+            return
+        c = self.reg.contracts.get(("<builtin>", f"{clsname}.{attr}"))
+        if c is not None:
+            yield VFunc("cmethod", attr, obj=recv, data=c), st
             return
         raise Unsupported(f"{clsname}.{attr}: no such field / method")
 
@@ -309,6 +321,18 @@ class CallMixin:
                 yield v, s2
         elif k == "local":
             yield from self.call_local(f, args, kwargs, st)
+        elif k == "ufun":
+            terms, sorts = [], []
+            for a in args:
+                a0 = self.deref(a, st)
+                so = self.sort_of(a0, st)
+                terms.append(self.to_term(a0, so, st))
+                sorts.append(self.U.z3sort(so))
+            rs = self.parse_sort(self.reg.ufuns[f.name])
+            fn = z3.Function(f"uf_{f.name}", *sorts, self.U.z3sort(rs))
+            yield self.from_term(fn(*terms), rs, st), st
+        elif k == "cmethod":
+            yield from self.apply_contract(f.data, None, [f.obj] + list(args), kwargs, st)
         elif k == "excclass":
             yield VFunc("excinst", f.name, data=args), st
         elif k == "external":
@@ -436,7 +460,18 @@ class CallMixin:
         """Modular call: assert requires, havoc modifies, assume ensures, fork raises."""
         if fn is not None:
             mod = source.load(c.module)
+            shared = {}
+            if c.shared_defaults:
+                names = [x.arg for x in fn.args.posonlyargs + fn.args.args]
+                for p_, clauses in c.shared_defaults.items():
+                    if p_ not in kwargs and (p_ not in names or names.index(p_) >= len(args)):
+                        obj = self.fresh(self.parse_sort(c.params[p_]), f"shared.{p_}", st, as_ref=True)
+                        kwargs = dict(kwargs, **{p_: obj})
+                        shared[p_] = clauses
             env = self.bind_params(fn, args, kwargs, st, mod)
+            for p_, clauses in shared.items():
+                for cl in clauses:
+                    st.assume(self.spec_bool(cl, env, st))
         else:
             env = dict(zip(c.params.keys(), args))
             env.update(kwargs)
@@ -584,7 +619,9 @@ class CallMixin:
                 return r
             return Iter(z3.IntVal(len(items)), get, "tuple")
         vs = self.as_seq(v, st, "iteration")
-        return Iter(vs.length(), lambda i, s, vs=vs: self.elem_value(vs, i, s), "seq")
+        it = Iter(vs.length(), lambda i, s, vs=vs: self.elem_value(vs, i, s), "seq")
+        it.seq = vs
+        return it
 
     def iter_range(self, args, st) -> Iter:
         ints = [self.to_mathint(self.as_int(self.deref(self.unwrap_opt(a, st, "range bound"), st))) for a in args]
@@ -644,6 +681,7 @@ class CallMixin:
         itv, s = outs[0]
         it = self.make_iter(itv, s)
         k = z3.Int(fresh_name("ci"))
+        self._comp_start = fresh_mark()
         sub = s.copy()
         sub.assume(z3.And(0 <= k, k < it.length))
         self.bind_target(g.target, it.get(k, sub), sub)
@@ -661,6 +699,7 @@ class CallMixin:
                 raise Unsupported(f"comprehension element forks / may raise @{getattr(en, 'lineno', '?')}")
             vals.append(o[0][0])
             sub = o[0][1]
+        self._comp_iter = it
         return k, it.length, vals, conds, sub, s
 
     def ev_ListComp(self, node, st):
@@ -674,6 +713,7 @@ class CallMixin:
         body_facts = sub.pc[len(s.pc) + 1:]
         term = self.to_term(val, elem_sort, sub)
         body_facts = sub.pc[len(s.pc) + 1:]
+        term, *body_facts = skolemize(k, self._comp_start, [term] + list(body_facts))
         s.assume(z3.ForAll([k], z3.Implies(z3.And(0 <= k, k < n), z3.And(arr[k] == term, *body_facts)), patterns=[arr[k]]))
         s.heap.update({r: o for r, o in sub.heap.items() if r not in s.heap})
         yield self.box_list(seqs.view(arr, z3.IntVal(0), z3.simplify(n), elem_sort), s), s
@@ -689,6 +729,7 @@ class CallMixin:
         if fname in ("all", "any"):
             b = self.truthy(vals[0], sub)
             body_facts = sub.pc[len(s.pc) + 1:]
+            b, rng, *body_facts = skolemize(k, self._comp_start, [b, rng] + list(body_facts))
             if fname == "all":
                 q = z3.ForAll([k], z3.Implies(z3.And(rng, *body_facts), b))
             else:
@@ -705,17 +746,52 @@ class CallMixin:
             raise Unsupported("sum of non-integers")
         term = self.to_mathint(self.as_int(val))
         body_facts = sub.pc[len(s.pc) + 1:]
+        term, *body_facts = skolemize(k, self._comp_start, [term] + list(body_facts))
         # recognise sum(W(cp[lo+k])) == cells(...) : handled by the generic congruence below
         arr = z3.Const(fresh_name("summand"), seqs.IntArr)
         s.assume(z3.ForAll([k], z3.Implies(z3.And(0 <= k, k < n), z3.And(arr[k] == term, *body_facts)), patterns=[arr[k]]))
         total = seqs.psum(arr, z3.simplify(n)) - seqs.psum(arr, 0)
         cong = self.sum_congruence(term, k, n, arr)
+        if cong is None:
+            cong = self.sum_congruence_semantic(term, k, n, body_facts, s)
         if cong is not None:
             s.assume(total == cong)
         start = self.I(0)
         if extra_args:
             raise Unsupported("sum with start over generator")
         yield V(INT, self.from_mathint(total)), s
+
+    def sum_congruence_semantic(self, term, k, n, body_facts, st):
+        """Sum-congruence lemma with a *proved* pointwise premise: if, for the iterated single-view string
+        (arr, lo, hi), the summand at k provably equals W(arr[lo+k]) then the sum is the cell-width prefix
+        difference (lemma: equal summands, equal sums; induction on n)."""
+        vs = getattr(self._comp_iter, "seq", None)
+        if vs is None or len(vs.pieces) != 1 or vs.pieces[0].kind != "view":
+            return None
+        p = vs.pieces[0]
+        cands = []
+        if vs.is_str:
+            cands.append((seqs.W(p.a[p.lo + k]), seqs.pcell(p.a, p.hi) - seqs.pcell(p.a, p.lo)))
+        elif vs.elem == INT:
+            cands.append((p.a[p.lo + k], seqs.psum(p.a, p.hi) - seqs.psum(p.a, p.lo)))
+        for pointwise, total in cands:
+            sol = z3.Solver()
+            sol.set("timeout", 3000)
+            ax = seqs.global_axioms()
+            for nm in ("W.range", "W.ascii"):
+                sol.add(ax[nm])
+            for f in self.global_facts:
+                sol.add(f)
+            for f in st.pc:
+                sol.add(f)
+            sol.add(z3.And(0 <= k, k < n))
+            for f in body_facts:
+                sol.add(f)
+            sol.add(term != pointwise)
+            if sol.check() == z3.unsat:
+                self.notes.append("sum-congruence lemma applied (pointwise premise proved by z3)")
+                return total
+        return None
 
     def sum_congruence(self, term, k, n, arr):
         """If the summand at index k is syntactically W(a[lo + k]) (resp. a[lo + k]) the sum over 0..n is the
@@ -734,6 +810,48 @@ class CallMixin:
             if not _mentions_var(lo, k) and a.sort() == seqs.IntArr:
                 return seqs.psum(a, z3.simplify(lo + n)) - seqs.psum(a, lo)
         return None
+
+
+def fresh_mark() -> int:
+    from .sorts import _counter
+    import itertools
+    # peek the shared counter without losing a value
+    v = next(_counter)
+    return v
+
+
+def skolemize(k, start: int, terms):
+    """Constants created while evaluating a comprehension / quantifier body at the symbolic index k
+    (fresh results of callee contracts, materialised arrays, ...) depend on k: replace each by an
+    uninterpreted function of k, otherwise `forall k. ... c ...` would wrongly share one value."""
+    consts = {}
+    stack = list(terms)
+    seen = set()
+    while stack:
+        t = stack.pop()
+        if t.get_id() in seen:
+            continue
+        seen.add(t.get_id())
+        if z3.is_quantifier(t):
+            stack.append(t.body())
+            continue
+        if z3.is_const(t) and t.decl().kind() == z3.Z3_OP_UNINTERPRETED and not t.eq(k):
+            name = t.decl().name()
+            if "!" in name:
+                try:
+                    idx = int(name.rsplit("!", 1)[1])
+                except ValueError:
+                    idx = -1
+                if idx > start:
+                    consts[name] = t
+        stack.extend(t.children())
+    if not consts:
+        return list(terms)
+    subs = []
+    for name, c in consts.items():
+        f = z3.Function(name + "@k", z3.IntSort(), c.sort())
+        subs.append((c, f(k)))
+    return [z3.substitute(t, *subs) for t in terms]
 
 
 def _mentions_var(term, var) -> bool:
